@@ -42,28 +42,6 @@ func (e *Env) reset() {
 	e.CmdByKey = map[string]string{}
 }
 
-// barrier: k tasks rendezvous inside their bodies; if the library serialises them the
-// barrier never opens and the explorer reports a deadlock (C07 work conservation).
-type barrier struct {
-	n    int
-	want int
-	ch   *vs.Chan[int]
-}
-
-func (e *Env) barrierWait(name string, want int) {
-	b := e.Barriers[name]
-	if b == nil {
-		b = &barrier{want: want, ch: vs.NewChan[int](0)}
-		e.Barriers[name] = b
-	}
-	b.n++
-	if b.n == b.want {
-		b.ch.Close()
-		return
-	}
-	b.ch.Recv2()
-}
-
 func (e *Env) faultFor(proc, key string) string {
 	if e.Fault != nil && e.Fault.Proc == proc && strings.Contains(key, e.Fault.Match) {
 		return e.Fault.Kind
@@ -267,7 +245,10 @@ func (e *Env) vcmd(cwd string, f []string) error {
 	key := taskKey(proc, finalIn, params)
 	e.CmdByKey[key] = e.lastCmd
 	vs.Event("S:" + key)
-	ps := e.Spec.proc(proc)
+	var ps *ProcSpec
+	if e.Spec != nil {
+		ps = e.Spec.proc(proc)
+	}
 	if ps != nil && ps.Barrier != "" {
 		e.barrierWait(ps.Barrier, barrierSize(e.Spec, ps.Barrier))
 	}
